@@ -27,6 +27,10 @@ def impl_replay(case):
     x0 = np.array(I.py_get_initial_state(), dtype=float).copy()
     p_before = np.array(M.get_parameter_values(), dtype=float).copy()
     out = {"sim": G.sim_tokens(M, bool(case.get("safe")), dt, case.get("t0", 0.0), x0), "kind": case["kind"]}
+    # which species each mass-action propensity of the built model reads (its post-processed 'species' string)
+    try:
+        out["ma_species"] = [(sorted(x_.strip() for x_ in str(d_[3].get("species", "")).split("*") if x_.strip() not in ("", "0")) if d_[2] == "massaction" else None) for d_ in G.reaction_defs(M)]
+    except Exception: out["ma_species"] = None
     vtoks = None; seed = int(case["seed"])
     if case.get("warmup") and not case["spec"].get("rules"):
         # an earlier simulation through the SAME model and interface must leave nothing behind (seeded change S3_C05: the model's
